@@ -350,14 +350,18 @@ pub fn check_c04_c12(v: &View, rcx: &RecCtx, out: &mut Vec<Violation>) {
         return;
     }
     let origin = rcx.origin;
-    let forms: [(&str, &Option<Option<Lite>>); 4] = [
+    let forms: [(&str, &Option<Option<Lite>>); 7] = [
         ("bytes", &v.rt_bytes),
         ("text", &v.rt_text),
         ("text-noprefix", &v.rt_text_noprefix),
         ("json", &v.rt_json),
+        ("json-value", &v.rt_json_value),
+        ("json-reader", &v.rt_json_reader),
+        ("json-escaped", &v.rt_json_escaped),
     ];
     for (name, rt) in forms {
-        let prop = if name.starts_with("text") { "C12" } else { "C04" };
+        // the text and JSON forms are also C12's business (parsing them returns an equal record)
+        let prop = if name.starts_with("text") || name.starts_with("json") { "C12" } else { "C04" };
         match rt {
             None => {} // panicked: C03's business
             Some(None) => {
@@ -466,6 +470,19 @@ pub fn check_view(v: &View, rcx: &RecCtx, out: &mut Vec<Violation>) {
     }
     check_c05_record(v, rcx, out);
     check_c04_c12(v, rcx, out);
+    // C15: a record equals its decode-after-encode image (and hashes like it)
+    if rcx.in_scope {
+        for (name, rt) in [("bytes", &v.rt_bytes), ("text", &v.rt_text), ("json", &v.rt_json)] {
+            if let Some(Some(l)) = rt {
+                if !l.eq_orig || !l.eq_orig_rev {
+                    out.push(viol("C15", format!("C15/decode-image-unequal/{name}"),
+                        format!("{} record {} is not == to its decode-after-encode image", rcx.origin, hex(&v.encoded))));
+                } else if l.hash != v.hash {
+                    out.push(viol("C15", format!("C15/decode-image-hash-differs/{name}"), hex(&v.encoded)));
+                }
+            }
+        }
+    }
     if !v.eq_self {
         out.push(viol("C15", "C15/not-reflexive", String::new()));
     }
